@@ -42,6 +42,8 @@ class SimTransport(object):
     self.closed_by = None
     self.on_write = None
     self.npause = 0
+    self.close_delay = 0.0         # virtual seconds between loseConnection() and connectionLost
+    self._close_scheduled = False
 
   # -- ITransport -------------------------------------------------------------
   def write(self, data):
@@ -84,8 +86,9 @@ class SimTransport(object):
       if self.producer is not None and (not self.streaming or self.producerPaused):
         self.producerPaused = False
         self.producer.resumeProducing()
-      elif self.disconnecting:
-        self._close(error.ConnectionDone(), 'local')
+      elif self.disconnecting and not self._close_scheduled:
+        self._close_scheduled = True
+        self.reactor.callLater(self.close_delay, self._close, error.ConnectionDone(), 'local')
     return chunk
 
   def loseConnection(self):
@@ -94,7 +97,7 @@ class SimTransport(object):
     self.disconnecting = True
     if not self.outbuf and self.producer is None:
       # twisted closes from the reactor loop, not re-entrantly
-      self.reactor.callLater(0, self._close, error.ConnectionDone(), 'local')
+      self.reactor.callLater(self.close_delay, self._close, error.ConnectionDone(), 'local')
 
   def abortConnection(self):
     if self.disconnected:
@@ -148,7 +151,7 @@ class SimTransport(object):
     self.producer = None
     self.producerPaused = False
     if self.disconnecting and not self.outbuf and not self.disconnected:
-      self.reactor.callLater(0, self._close, error.ConnectionDone(), 'local')
+      self.reactor.callLater(self.close_delay, self._close, error.ConnectionDone(), 'local')
 
   # -- IPushProducer (read side) -------------------------------------------------
   def pauseProducing(self):
@@ -294,6 +297,12 @@ class SimReactor(object):
     self.escaped_errors = []
     self.call_errors = 0
     self.thread_joiner = None    # callable: block until pool threads exit
+    self._pool_trigger = False
+    # a real reactor registers crash() and disconnectAll() as 'during shutdown'
+    # triggers when it is constructed, i.e. ahead of anything the application adds
+    # to that phase; the thread pool adds its own stop when it is first used
+    self.addSystemEventTrigger('during', 'shutdown', self._crash)
+    self.addSystemEventTrigger('during', 'shutdown', self.disconnectAll)
     self.waker = None            # callable: wake the reactor thread (callFromThread)
 
   # ---- plumbing --------------------------------------------------------------
@@ -391,6 +400,9 @@ class SimReactor(object):
 
   # ---- IReactorThreads ----------------------------------------------------------
   def callInThread(self, f, *a, **kw):
+    if not self._pool_trigger:
+      self._pool_trigger = True
+      self.addSystemEventTrigger('during', 'shutdown', self._join_threads)
     self.threads.append((f, a, kw))
 
   def callFromThread(self, f, *a, **kw):
@@ -436,9 +448,6 @@ class SimReactor(object):
     self._stopped = True
     self.ctxlog('reactor-stop')
     e = self.triggers.setdefault('shutdown', _ThreePhaseEvent())
-    e.addTrigger('during', self._crash)
-    e.addTrigger('during', self.disconnectAll)
-    e.addTrigger('during', self._join_threads)
     e.fireEvent()
 
   def _crash(self):
